@@ -197,11 +197,15 @@ GstrfVerdict(ev) ==
       F == IF aok THEN DenseOf(ev.A0, m, n, cplx, FALSE) ELSE <<>>
       fv == FactorVerdict(ev, F, PatternOf(ev.A0, FALSE), m, n, Dy(UTok(ev)), UOK(ev), ev.opts.Fact = 2, FALSE)
       bad == fv.bad
-        \cup (IF \E k \in 1..Len(ev.A1v) : ev.A1v[k] # ev.A0[k][3] THEN {"C02.A_modified"} ELSE {})
+        \cup (IF Len(ev.A1v) # Len(ev.A0) \/ \E k \in 1..Len(ev.A1v) : ev.A1v[k] # ev.A0[k][3] THEN {"C02.A_modified"} ELSE {})
         \* column order and elimination tree are inputs of the factor routine: what sp_preorder returned is what the caller keeps
+        \* a caller workspace is never overrun; with one, the outcome is a reported shortage (info > n) or a factorization (C08)
+        \cup (IF Has(ev, "work") /\ ev.work.guards_ok # 1 THEN {"C08.guard_overrun"} ELSE {})
+        \cup (IF Has(ev, "work") /\ ev.work.lwork > 0 /\ ev.info < 0 THEN {"C08.shortage_not_reported"} ELSE {})
         \cup (IF Has(ev, "order_in_same") /\ ev.order_in_same # <<1, 1>> THEN {"C10.factor_routine_wrote_ordering_or_tree", "C06.etree_not_reused"} ELSE {})
         \cup LedgerCls(ev, OutcomeCls(ev))
-  IN [bad |-> bad, arb |-> fv.arb, cov |-> fv.cov \cup (IF Has(ev, "order_in_same") THEN {"C10.factor_inputs_checked"} ELSE {})]
+  IN [bad |-> bad, arb |-> fv.arb, cov |-> fv.cov \cup (IF Has(ev, "order_in_same") THEN {"C10.factor_inputs_checked"} ELSE {})
+                                            \cup (IF Has(ev, "work") /\ ev.work.lwork > 0 THEN {"C08.user_workspace_factor_routine" \o (IF m > n THEN "_tall" ELSE "")} ELSE {})]
 
 (***************************************************************************)
 (* Memory events (hooks in [sdcz]memory.c, DESIGN 4.2): safety layer of     *)
@@ -343,6 +347,7 @@ EquedOK(q) == q \in {"N", "R", "C", "B"}
 RowEqu(q) == q \in {"R", "B"}
 ColEqu(q) == q \in {"C", "B"}
 RealTok(t) == <<Dy(t), RZero>>
+DrvI == INSTANCE SluDriver WITH N <- 0, pc <- "", o <- <<>>, hist <- <<>>, info <- 0, eq <- "N"
 GssvxVerdict(ev, sc) ==
   LET n == ev.n  ty == ev.ty  cplx == IsCplx(ty)
       info == ev.info
@@ -414,7 +419,13 @@ GssvxVerdict(ev, sc) ==
       etreeDue == fact = 0 /\ ~query /\ info >= 0 /\ info <= n + 1 /\ n <= 16 /\ Has(ev, "etree") /\ IsPermSeq(ev.perm_c, n)
       etreeOK == /\ \A j \in 1..n : ev.etree[j] \in 0..n
                  /\ [j \in Cols(n) |-> ev.etree[j + 1]] = ColEtreeDef(PatternOf(ev.A0, tr), n, n, SeqToFn(ev.perm_c, n))
-      bad == fv.bad \cup iv.bad
+      \* ---- the phases the driver performed (hooks P:Phase), judged by the safety layer of SluDriver
+      drvo == [Fact |-> fact, Equil |-> ev.opts.Equil = 1, Trans |-> ev.opts.Trans, nr |-> tr, nrhs |-> IF Has(ev, "B0") /\ ev.nrhs > 0 THEN 1 ELSE 0,
+               Cond |-> ev.opts.Cond = 1, Growth |-> ev.opts.PivotGrowth = 1, Refine |-> ev.opts.IterRefine # 0,
+               lw |-> IF query THEN "query" ELSE "sys", ilu |-> FALSE, mc64 |-> FALSE]
+      phDue == Has(ev, "phases") /\ ev.fn = "gssvx" /\ ev.phases # <<>> /\ EquedOK(q)
+      drvbad == IF phDue THEN DrvI!SafeClauses(drvo, info, n, q, ev.phases) ELSE {}
+      bad == fv.bad \cup iv.bad \cup drvbad
         \cup (IF ~EquedOK(q) THEN {"C05.equed_letter"} ELSE {})
         \cup (IF EquedOK(q) /\ ~query /\ info >= 0 /\ fact # 3 /\ ~ascaled THEN {"C05.A_scaled_as_equed"} ELSE {})
         \cup (IF EquedOK(q) /\ ~query /\ info >= 0 /\ ~bscaled THEN {"C05.B_scaled_as_documented"} ELSE {})
@@ -480,6 +491,7 @@ GssvxVerdict(ev, sc) ==
         \cup (IF sc.memfail THEN {"C08.shortage_seen"} ELSE {})
         \cup (IF q # "N" THEN {"C05.equed_" \o q} ELSE {})
         \cup (IF etreeDue THEN {"C10.driver_etree_checked"} ELSE {})
+        \cup (IF phDue THEN {"C05.driver_phases_checked"} ELSE {})
         \cup {"C06.fact_" \o (CASE fact = 0 -> "DOFACT" [] fact = 1 -> "SamePattern" [] fact = 2 -> "SameRowPerm" [] OTHER -> "FACTORED")}
   IN [bad |-> bad, arb |-> fv.arb \cup sv.arb \cup numarb \cup iv.arb, cov |-> cov \cup iv.cov, digs |-> IF factored /\ cmpInfo THEN digs ELSE <<>>, d2 |-> fv.d2]
 
@@ -846,6 +858,9 @@ Verdict(ev, pm, sc) ==
      \* scenario was already found to leak)
      [bad |-> (IF ev.ledger.live # 0 /\ ~sc.leaked THEN {"C19.leak_at_end"} ELSE {}) \cup (IF ev.ledger.bad_frees # 0 THEN {"C19.bad_free"} ELSE {})
               \cup (IF ev.ledger.redzone # 0 \/ ev.ledger.sweep # 0 THEN {"C19.redzone"} ELSE {}), arb |-> {}, cov |-> {"C19.ledger_end"}]
+  ELSE IF ev.e = "Unevaluable" THEN
+     \* (written by the orchestrator in place of a scenario whose recorded output the operators above are not defined on)
+     [bad |-> {"C19.abnormal_end_unevaluable_output_of_" \o ev.at}, arb |-> {}, cov |-> {}]
   ELSE IF IsMemEvent(ev) THEN MemVerdict(pm, ev, sc.ty, sc.liw)
   ELSE IF IsRefineEvent(ev) THEN RefineVerdict(sc.rf, ev)
   ELSE [bad |-> {}, arb |-> {}, cov |-> {}]
